@@ -114,6 +114,12 @@ def cell_cases(ctx: Ctx):
                 if lk == "dask":
                     c["by_chunks"] = [c["chunks"]]
         cases.append(c)
+    # a request that cannot be served: more reduction axes than label dimensions (must be refused cleanly)
+    for func in ("sum", "nanmax", "argmax", "count"):
+        for chunks in (None, [[1, 1], [3]], [[2], [1, 2]]):
+            for ax in ([0, 1], [-1, -2], [1, 0]):
+                c = dict(array=enc(np.arange(6.0).reshape(2, 3)), by=[enc(np.array([5, 15, 5]))], func=func, axis=ax, chunks=chunks, split_every=4)
+                cases.append(c)
     # degenerate input inside the documented contract: no element has a valid label and nothing is requested
     # (the NumPy specification is an empty result); eager and chunked, every method
     for func in ("sum", "nanmax", "count", "argmax", "var", "nanfirst"):
